@@ -50,6 +50,7 @@ type PanicSite struct {
 	Func   string `json:"func"`
 	Kind   string `json:"kind"` // index | slice | assert
 	Expr   string `json:"expr"`
+	NExpr  string `json:"nexpr"` // Expr with locals replaced by `$k:T` (rename-invariant), used in the key
 	Class  string `json:"class"`
 	Guard  string `json:"guard,omitempty"`  // where the guard was found (human readable)
 	Lean   string `json:"lean,omitempty"`   // obligation statement
@@ -1676,6 +1677,7 @@ func (fc *psFunc) analyse(body ast.Node, ctx *psCtx) {
 			s.Pos = pos(n.Pos())
 			s.Func = fc.fn
 			s.Expr = exprString(n.(ast.Expr))
+			s.NExpr = normExpr(fc.info, n.(ast.Expr))
 			ctx.sites = append(ctx.sites, *s)
 		}
 		return true
@@ -1861,20 +1863,20 @@ func psStrList(joined string) string {
 	return "[" + strings.Join(parts, ", ") + "]"
 }
 
-func (s PanicSite) key() string { return s.Func + " | " + s.Expr }
+func (s PanicSite) key() string { return s.Func + " | " + s.NExpr }
 
 func writePanicSitesLean(path string, ctx *psCtx) {
 	var sb strings.Builder
 	sb.WriteString("-- GENERATED by /verif/extract (panicsites.go) from the Go source in /repo. Do not edit.\n")
 	sb.WriteString("namespace DC.Gen.PanicSites\n\n")
-	sb.WriteString("structure Site where\n  id : Nat\n  pos : String\n  func : String\n  kind : String\n  expr : String\n  cls : String\n  guard : String\n  lit : List String\n  asserted : String\n\n")
-	sb.WriteString("/-- function name + expression text: stable under edits elsewhere in the file -/\ndef Site.key (s : Site) : String := s.func ++ \" | \" ++ s.expr\n\n")
+	sb.WriteString("structure Site where\n  id : Nat\n  pos : String\n  func : String\n  kind : String\n  expr : String\n  cls : String\n  guard : String\n  lit : List String\n  asserted : String\n  nexpr : String\n\n")
+	sb.WriteString("/-- function name + expression text with locals replaced by `$k:T`: stable under edits elsewhere in the file and under renaming of locals -/\ndef Site.key (s : Site) : String := s.func ++ \" | \" ++ s.nexpr\n\n")
 	sb.WriteString("/-- every index / slice / unchecked type-assertion site of lexer, parser, internal/explain, ast -/\ndef sites : List Site := [")
 	for i, s := range ctx.sites {
 		if i > 0 {
 			sb.WriteString(",")
 		}
-		fmt.Fprintf(&sb, "\n  ⟨%d, %s, %s, %s, %s, %s, %s, %s, %s⟩", s.ID, lstr(s.Pos), lstr(s.Func), lstr(s.Kind), lstr(s.Expr), lstr(s.Class), lstr(s.Guard), psStrList(s.Lit), lstr(s.Assert))
+		fmt.Fprintf(&sb, "\n  ⟨%d, %s, %s, %s, %s, %s, %s, %s, %s, %s⟩", s.ID, lstr(s.Pos), lstr(s.Func), lstr(s.Kind), lstr(s.Expr), lstr(s.Class), lstr(s.Guard), psStrList(s.Lit), lstr(s.Assert), lstr(s.NExpr))
 	}
 	sb.WriteString("]\n\n")
 	sb.WriteString("def unguarded : List Site := sites.filter (fun s => s.cls == \"unguarded\")\n\n")
